@@ -112,7 +112,7 @@ theorem execOp_cab {s : State} (me : Nat) (op : Op) (rest : List Op) (c : Cab s)
 theorem runOps_cab (me : Nat) (ops : List Op) {s : State} (c : Cab s) :
     Cab (runOps me ops s) ∧ Ext s (runOps me ops s) := by
   induction ops generalizing s with
-  | nil => exact ⟨((SameC.refl s).die me).cab c, ((SameC.refl s).die me).ext⟩
+  | nil => exact ⟨((SameC.refl s).fin me).cab c, ((SameC.refl s).fin me).ext⟩
   | cons op rest ih =>
     have key := execOp_cab me op rest c
     simp only [runOps]
@@ -120,7 +120,7 @@ theorem runOps_cab (me : Nat) (ops : List Op) {s : State} (c : Cab s) :
     · rename_i s1 e; rw [e] at key; exact ⟨(ih key.1).1, key.2.trans (ih key.1).2⟩
     · rename_i s1 e; rw [e] at key; exact key
     · rename_i s1 e; rw [e] at key
-      exact ⟨((SameC.refl s1).die me).cab key.1, key.2.trans ((SameC.refl s1).die me).ext⟩
+      exact ⟨((SameC.refl s1).fin me).cab key.1, key.2.trans ((SameC.refl s1).fin me).ext⟩
 
 theorem freeRoutine_cab {s : State} {r : Nat} (c : Cab s) (hr : r < s.n) (hf : (s.R r).freed = false) :
     Cab (freeRoutine s r) := by
@@ -326,7 +326,7 @@ theorem runOps_canceled (me : Nat) (ops : List Op) {s : State} (hic : s.inCleanu
     (hc : (s.R me).canceled = true) :
     SameC s (runOps me ops s) ∧ ((runOps me ops s).R me).state = .dead := by
   induction ops generalizing s with
-  | nil => exact ⟨(SameC.refl s).die me, by simp [runOps, die, State.R, State.setR]⟩
+  | nil => exact ⟨(SameC.refl s).fin me, by simp [runOps, fin, die, State.R, State.setR]⟩
   | cons op rest ih =>
     have key := execOp_sameC s me op rest (Or.inl hic)
     have nb := C18_cancel_unblocks' s me op rest hc
@@ -337,7 +337,7 @@ theorem runOps_canceled (me : Nat) (ops : List Op) {s : State} (hic : s.inCleanu
       exact ⟨key.trans this.1, this.2⟩
     · rename_i s1 e; rw [e] at nb; exact absurd rfl nb
     · rename_i s1 e; rw [e] at key
-      exact ⟨key.die me, by simp [die, State.R, State.setR]⟩
+      exact ⟨key.fin me, by simp [fin, die, State.R, State.setR]⟩
 
 theorem freeRoutine_R_ne (s : State) (r x : Nat) (e : x ≠ r) : (freeRoutine s r).R x = s.R x := by
   simp [freeRoutine, State.R, State.setR, e]
@@ -534,6 +534,7 @@ theorem mainCall_sameC (s : State) (op : Op) : SameC s (mainCall s op) := by
   | join t => exact (SameC.refl s).abort
   | create d now => exact (SameC.refl s).abort
   | cancel t => exact (SameC.refl s).abort
+  | resume t => exact (SameC.refl s).abort
   | exit => exact (SameC.refl s).abort
   | throw => exact (SameC.refl s).abort
   | rcleanup => exact (SameC.refl s).abort
@@ -542,6 +543,8 @@ theorem applyMain_cab {s : State} (op : MainOp) (c : Cab s) (h : Inv s) : Cab (a
   cases op with
   | call op => exact (mainCall_sameC s op).cab c
   | define xf ops => exact c.of_eq rfl rfl rfl rfl rfl
+  | defineR ops => exact c.of_eq rfl rfl rfl rfl rfl
+  | stack b => exact c.of_eq rfl rfl rfl rfl rfl
   | new d now => exact create_cab d now c
   | resume r => exact ((SameC.refl s).resume r).cab c
   | cancel r => exact ((SameC.refl s).cancelR r).cab c
@@ -609,16 +612,28 @@ theorem execOp_log (s : State) (me : Nat) (op : Op) (rest : List Op) : s.log <+:
     | exact (by simpa using waitBlock_log_prefix _ _ _ _)
     | (refine List.IsPrefix.trans ?_ (waitBlock_log_prefix _ _ _ _); simp)
 
+theorem unwindList_log (me : Nat) (ms : List Nat) (s : State) : s.log <+: (unwindList me ms s).log := by
+  induction ms generalizing s with
+  | nil => exact List.prefix_refl _
+  | cons m ms ih => exact (execOp_log s me (.unlock m) []).trans (ih _)
+
+theorem fin_log (s : State) (me : Nat) : s.log <+: (fin s me).log := by
+  show s.log <+: (unwind s me).log
+  unfold unwind
+  split
+  · exact unwindList_log _ _ _
+  · exact List.prefix_refl _
+
 theorem runOps_log (me : Nat) (ops : List Op) (s : State) : s.log <+: (runOps me ops s).log := by
   induction ops generalizing s with
-  | nil => simp [runOps, die]
+  | nil => exact fin_log s me
   | cons op rest ih =>
     have key := execOp_log s me op rest
     simp only [runOps]
     split
     · rename_i s1 e; rw [e] at key; exact key.trans (ih s1)
     · rename_i s1 e; rw [e] at key; exact key
-    · rename_i s1 e; rw [e] at key; simpa [die] using key
+    · rename_i s1 e; rw [e] at key; exact key.trans (fin_log s1 me)
 
 theorem switchTo_log (s : State) (r : Nat) : s.log <+: (switchTo s r).log := by
   unfold switchTo
